@@ -67,6 +67,11 @@ type Plan struct {
 	CancelOff   int    `json:"cancel_off"`   // response offset at which the caller cancels
 	URLErr      bool   `json:"url_err"`      // path pattern that cannot be turned into a URL
 	MissingProd bool   `json:"missing_prod"` // no producer registered for the payload's media type
+	// RespClose: the response announces that the connection will not be kept (Connection: close / HTTP/1.0): Response.Close
+	RespClose bool `json:"resp_close,omitempty"`
+	// ClientTimeout: the call goes through an *http.Client of the operation that carries a (long, 30 s) Timeout of its
+	// own; the request timeout and the caller's context still decide how long the call may take
+	ClientTimeout bool `json:"client_timeout,omitempty"`
 }
 
 // upload source -------------------------------------------------------------------------------------
@@ -381,7 +386,7 @@ func Check(p Plan) *kit.Violation {
 			hdr = http.Header{}
 		}
 		b.ctHeader = hdr.Get("Content-Type")
-		return &http.Response{StatusCode: 200, Status: "200 OK", Header: hdr, Body: b, Request: req}, nil
+		return &http.Response{StatusCode: 200, Status: "200 OK", Header: hdr, Body: b, Request: req, Close: p.RespClose}, nil
 	})
 	if p.Reuse {
 		r.EnableConnectionReuse()
@@ -391,6 +396,9 @@ func Check(p Plan) *kit.Violation {
 		return &src{err: srcError(p.SrcErr), data: bytes.Repeat([]byte{byte('a' + i)}, p.FileLen), chunk: p.Chunk, failAt: failAt, name: fmt.Sprintf("dir/f%d.bin", i), ct: "application/x-scripted"}
 	}
 	op := &rt.ClientOperation{ID: "plan", Method: "POST", PathPattern: "/up"}
+	if p.ClientTimeout {
+		op.Client = &http.Client{Transport: r.Transport, Timeout: 30 * time.Second}
+	}
 	if p.URLErr {
 		op.PathPattern = "/up/%zz"
 	}
@@ -724,6 +732,8 @@ func Gen(t *rapid.T) Plan {
 		}
 	}
 	p.Reuse = rapid.Bool().Draw(t, "reuse")
+	p.RespClose = rapid.IntRange(0, 3).Draw(t, "connection-close") == 0
+	p.ClientTimeout = rapid.IntRange(0, 3).Draw(t, "client-with-timeout") == 0
 	p.TimeoutMs = rapid.SampledFrom([]int{0, 15, 40, 5000, -1}).Draw(t, "timeout")
 	if p.TimeoutMs < 0 {
 		p.DefaultMs = rapid.SampledFrom([]int{30, 5000}).Draw(t, "defaultms")
@@ -876,6 +886,9 @@ func Classify(p Plan) (bool, []string) {
 	add(p.deadlineMs() > 0 && p.deadlineMs() < 100 && p.RespEnd == "stall", "deadline shorter than completion")
 	add(p.Reuse && (p.Reader == "partial" || p.Reader == "none" || p.Reader == "sizes" || p.Reader == "copyfail"), "reuse with unread body")
 	add(p.Reader == "copyfail", "reader copies the body to a failing destination")
+	add(p.RespClose && p.Reuse, "reuse and a response that announces Connection: close")
+	add(p.ClientTimeout, "operation client with a Timeout of its own")
+	add(p.ClientTimeout && p.RespEnd == "stall", "operation client with a long Timeout, request timeout shorter, stalling response")
 	if p.Reader == "sizes" {
 		for _, n := range p.ReadSizes {
 			if n == 0 {
